@@ -64,6 +64,7 @@ type rep interface {
 	TransferTo(raftID uint64) error
 	Dump(keys []string) (map[string]string, error) // key spec "kv:name" ... -> canonical reply token
 	Log() ([]logEnt, error)
+	Block(ids []uint64) error // drop the raft messages arriving from these replicas (empty = heal)
 }
 
 // ---------------------------------------------------------------- local replica
@@ -122,6 +123,7 @@ type replica struct {
 	engine string
 	srv    *server.Server
 	conf   *node.NamespaceConfig
+	filter *server.VerifRaftFilter
 	mu     sync.Mutex
 }
 
@@ -159,6 +161,7 @@ func newReplica(id int, dir string, base int, eng string) (*replica, error) {
 		return nil, err
 	}
 	kv.GetNsMgr().SetIClusterInfo(&fakeClusterInfo{name: opts.ClusterID})
+	filter := kv.VerifInstallRaftFilter()
 	conf := node.NewNSConfig()
 	conf.Name = nsFull
 	conf.BaseName = nsBase
@@ -167,7 +170,7 @@ func newReplica(id int, dir string, base int, eng string) (*replica, error) {
 	conf.Replicator = nReplica
 	conf.RaftGroupConf.GroupID = 1000
 	conf.RaftGroupConf.SeedNodes = seedNodes(base)
-	r := &replica{id: id, dir: dir, base: base, engine: eng, srv: kv, conf: conf}
+	r := &replica{id: id, dir: dir, base: base, engine: eng, srv: kv, conf: conf, filter: filter}
 	if _, err := kv.InitKVNamespace(uint64(id+1), conf, false); err != nil {
 		return nil, err
 	}
@@ -226,6 +229,11 @@ func (r *replica) OpenNS() error {
 		return err
 	}
 	return n.Start(false)
+}
+
+func (r *replica) Block(ids []uint64) error {
+	r.filter.SetBlocked(ids)
+	return nil
 }
 
 func (r *replica) TransferTo(raftID uint64) error {
@@ -336,6 +344,7 @@ type childReq struct {
 	Cmd  string   `json:"cmd"`
 	Arg  uint64   `json:"arg,omitempty"`
 	Keys []string `json:"keys,omitempty"`
+	IDs  []uint64 `json:"ids,omitempty"`
 }
 type childRsp struct {
 	Err    string            `json:"err,omitempty"`
@@ -402,6 +411,8 @@ func runChild(id int, dir string, base int, eng string) {
 			if e != nil {
 				rsp.Err = e.Error()
 			}
+		case "block":
+			r.Block(q.IDs)
 		case "flushlog":
 			theLogger.Flush()
 		default:
@@ -579,6 +590,10 @@ func (c *childRep) OpenNS() error {
 }
 func (c *childRep) TransferTo(id uint64) error {
 	_, err := c.call(childReq{Cmd: "transfer", Arg: id}, 10*time.Second)
+	return err
+}
+func (c *childRep) Block(ids []uint64) error {
+	_, err := c.call(childReq{Cmd: "block", IDs: ids}, 5*time.Second)
 	return err
 }
 func (c *childRep) Dump(keys []string) (map[string]string, error) {
